@@ -143,6 +143,34 @@ pub(crate) fn sample_request_as_json() -> String {
     .unwrap()
 }
 
+/// If `offset..end_offset` is not a valid span of `input`, return the
+/// response describing the problem.
+fn invalid_span_response(
+    input: &str,
+    offset: usize,
+    end_offset: usize,
+    id: Option<RequestId>,
+) -> Option<Response> {
+    if offset <= end_offset
+        && end_offset <= input.len()
+        && input.is_char_boundary(offset)
+        && input.is_char_boundary(end_offset)
+    {
+        return None;
+    }
+
+    Some(Response {
+        kind: ResponseKind::MalformedRequest {
+            message: format!(
+                "Invalid request: offset {offset} and end_offset {end_offset} are not a valid span of an input of {} bytes.",
+                input.len()
+            ),
+        },
+        position: None,
+        id,
+    })
+}
+
 fn handle_load_request(
     id: Option<usize>,
     path: &Path,
@@ -151,6 +179,10 @@ fn handle_load_request(
     end_offset: usize,
     env: &mut Env,
 ) -> Response {
+    if let Some(response) = invalid_span_response(input, offset, end_offset, id) {
+        return response;
+    }
+
     let abs_path = to_abs_path(path);
 
     let vfs_path = env.vfs.insert(Rc::new(abs_path.clone()), input.to_owned());
@@ -671,6 +703,12 @@ fn handle_run_eval_request(
     session: &mut Session,
     id: Option<RequestId>,
 ) -> Response {
+    let offset = offset.unwrap_or(0);
+    let end_offset = end_offset.unwrap_or(input.len());
+    if let Some(response) = invalid_span_response(input, offset, end_offset, id) {
+        return response;
+    }
+
     let path = match path {
         Some(p) => to_abs_path(p),
         None => {
@@ -680,13 +718,8 @@ fn handle_run_eval_request(
     };
 
     let vfs_path = env.vfs.insert(Rc::new(path.clone()), input.to_owned());
-    let (items, errors) = parse_toplevel_items_from_span(
-        &vfs_path,
-        input,
-        &mut env.id_gen,
-        offset.unwrap_or(0),
-        end_offset.unwrap_or(input.len()),
-    );
+    let (items, errors) =
+        parse_toplevel_items_from_span(&vfs_path, input, &mut env.id_gen, offset, end_offset);
 
     if !errors.is_empty() {
         return as_error_response(errors, &env.vfs, &env.project_root);
